@@ -261,6 +261,28 @@ func runC10Race(c *core.Ctx) {
 				}
 			}()
 		}
+		// goroutines encrypting neighbouring sub-slices of one buffer (lengths that are no multiple of 16, so
+		// that padding is involved): each may touch its own slice only, also temporarily
+		{
+			n := 1 + r.Intn(15) + 16*r.Intn(3)
+			shared := r.Bytes(4 * n)
+			for p := 0; p < 4; p++ {
+				wg.Add(1)
+				go func(p int, kk [16]byte) {
+					defer wg.Done()
+					<-start
+					for i := 0; i < 6; i++ {
+						part := shared[p*n : (p+1)*n] // spare capacity behind it belongs to the neighbour
+						lorawan.EncryptFRMPayload(lorawan.AES128Key(kk), p%2 == 0, lorawan.DevAddr{1, 2, 3, byte(p)}, uint32(i), part)
+						if n <= 15 {
+							lorawan.EncryptFOpts(lorawan.AES128Key(kk), false, p%2 == 0, lorawan.DevAddr{1, 2, 3, byte(p)}, uint32(i), part)
+						}
+						atomic.AddInt64(&privOps, 1)
+						runtime.Gosched()
+					}
+				}(p, key16(r))
+			}
+		}
 		// distinct frame values that started life as copies of one decoded template
 		// (var a, b = tmpl, tmpl) are decoded into concurrently
 		var tmpl lorawan.PHYPayload
